@@ -212,7 +212,7 @@ AlphaNodes2(z) ==
 RECURSIVE TokSeqs(_, _)
 TokSeqs(S, n) == IF n = 0 THEN {<<>>} ELSE LET R == TokSeqs(S, n - 1) IN R \cup {Append(q, x) : q \in R, x \in S}
 PathToks == {"B", "L", "P", "C", "O", "A", "Bc", "Cn", "bad", "empty"}
-PathToksX == PathToks \cup {"X", "B3", "A2"}
+PathToksX == PathToks \cup {"X", "B3", "B0", "A2"}
 AlphaPathX(n) == SetToSeq({Slider(p) : p \in TokSeqs(PathToksX, n) \ {<<>>}})
 AlphaPath(n)  == SetToSeq({Slider(p) : p \in TokSeqs(PathToks, n) \ {<<>>}})
 AlphaPathR(n) == SetToSeq({Slider(p) : p \in TokSeqs(PathToks \ {"empty", "C"}, n) \ {<<>>}})
